@@ -264,14 +264,20 @@ CHECKS = {
     "C11": ("full",
             "Lean theorems (C11.complete_iff(+_count), typed_iff, searchSubtree_span (any Python index -len<=i<len; _span_nat/_index/_total), height_eq/height_deepest, "
             "splice_welltyped/_complete, gen_full/gen_grow/gen_half/gen_ramped, cx_closed, cxlb_closed, mutUniform_closed, nodeRepl_closed, ephemeral_closed, "
-            "insert_closed, shrink_closed, op_closed, staticLimit_sound/_closed/_total/_fault/_height_total, ops_closed_history, ops_limit_history, add_pools_ok) hold "
+            "insert_closed, shrink_closed, op_closed, staticLimit_sound/_closed/_total/_fault/_height_total, ops_closed_history, ops_limit_history, add_pools_ok; "
+            "round 7: semantic_mut_closed/_complete/_size, semantic_cx_closed/_complete/_size, semantic_missing_primitive for the geometric semantic operators (Core/GpSemantic.lean; "
+            "closure over a GSGP signature, exact size formulas, child 2 of cxSemantic contains child 1), and pset_lookup_exact, pset_declared, pset_lookup_order_independent, "
+            "pset_read_before_declare, pset_untyped for the declaration state machine of PrimitiveSetTyped / PrimitiveSet (Core/GpPset.lean: pools = exactly the declared symbols whose "
+            "return type is a subclass of the key, independent of the declaration order, counters, terminalRatio) hold "
             "for every primitive set with the pool invariant, every tree and every tape; the history theorems are inductions over arbitrary finite sequences of "
             "(possibly static-limited) operators applied to the same tree objects. Core/GpTree.lean "
             "transcribes the list-level code of deap.gp and is diffed against it by replaying the recorded random draws on 20 primitive sets (4 loosely typed; 10 strongly "
             "typed incl. subclass pairs, object-rooted roots, a type with terminals only, a type with primitives only, two homonymous types; 6 with the vocabulary "
             "registered in shuffled order; psetOK_of_adds derives the pool invariant from the registrations) x all "
             "min<=max in 0..6 x all operators (bare and under staticLimit), searchSubtree at every int index, and operator histories (3-8 operators on the same objects with "
-            "read-only calls, clones and pickle round trips in between, checked after every step and replayed as a whole by runHistory); the statement is evaluated as an independent oracle.",
+            "read-only calls, clones and pickle round trips in between, checked after every step and replayed as a whole by runHistory); mutSemantic / cxSemantic on 9 GSGP sets (incl. the "
+            "assertion on sets lacking lf/mul/add/sub) and random declaration histories (typed / untyped, renamings, pool reads, name clashes) against the whole state of the real class; "
+            "the statement is evaluated as an independent oracle.",
             TB + "list slicing/slice assignment/issubclass; randint/randrange/choice contracts; deepcopy/pickle of a tree keep its node list (checked by the history replay); "
             "theorems speak about every result the generators return "
             "and gen_total/cx_total/cxlb_total/mut*_total/staticLimit_total prove that every well-typed tape of the stated length yields a result (no IndexError, termination); "
@@ -288,7 +294,11 @@ CHECKS = {
             "identifiers, constants print as literals) which the driver evaluates on every compiled tree. Correspondence: 15 primitive sets (renamed/zero arguments, named terminals, "
             "mixed-type equal constants, typed int/bool/float, string sets with unnamed string constants, bool ephemerals in int slots), a same-name twin set, three-level ADF families incl. "
             "zero-argument ADFs, parent/offspring pairs compiled consecutively, trees of height 0..6 from generators and variation operators; for every source DEAP hands to eval (captured at "
-            "gp.compile's own eval call): model AST = ast.parse of CPython, model value = compiled callable; plus generated and randomly edited texts of the sub-language.",
+            "gp.compile's own eval call): model AST = ast.parse of CPython, model value = compiled callable; plus generated and randomly edited texts of the sub-language. Round 7: "
+            "graph_nodes_labels, graph_edges_tree, graph_unique_parent (gp.graph's stack loop returns exactly the parent->child edges of the prefix tree, len-1 of them, every non-root "
+            "with one parent) and semantic_mut_denotes(+_real), semantic_cx_denotes(+_real), evalTree_is_evalG (the offspring of mutSemantic / cxSemantic denote "
+            "ind + ms*(lf(tr1)-lf(tr2)) and lf(tr)*ind1 + (1-lf(tr))*ind2 - over any carrier and over the reals with the logistic function, where child 1 lies between the parents; "
+            "child 2 contains child 1); correspondence: gp.graph on trees of every set, semantic offspring as tree sources, compiled offspring against the model's offspring and the closed formulas.",
             TB + "Still trusted (reason for 'partial'): that CPython's tokenizer/parser/evaluator of Name, Constant, Call, UnaryOp(USub) and Lambda nodes agrees with the Lean language model "
             "(compared on every run, AST against ast.parse and values against the compiled callable, not proved); repr of constants; IEEE arithmetic of Lean's Float.",
             "Lean 4 proof over a hand-written model + differential correspondence + oracle"),
